@@ -878,7 +878,7 @@ Lemma step_all : forall c s g lab, Inv c s g -> cfg_ok c -> wf_step g lab = true
   snd (q_step c s lab) = snd (spec_step (g_list g) lab) /\
   g_list (ghost_step g lab) = fst (spec_step (g_list g) lab).
 Proof.
-  intros c s g lab I [H2 HW] Hw Hh. destruct lab as [id p | | id p | id p | | | b | id p]; cbn [q_step spec_step fst snd].
+  intros c s g lab I [H2 HW] Hw Hh. destruct lab as [id p | | id p | id p | | | b | id p |]; cbn [q_step spec_step fst snd].
   - split; [apply step_push; assumption | split; reflexivity].
   - destruct (step_pop c s g I Hh) as [A B]. destruct (q_pop s) as [r s'] eqn:E. cbn [fst snd] in *.
     split; [assumption|]. split; [congruence|]. cbn [ghost_step]. destruct (g_list g) eqn:El; cbn [g_list tl]; rewrite ?El; reflexivity.
@@ -888,6 +888,7 @@ Proof.
     split; [assumption|]. split; [congruence | reflexivity].
   - split; [apply step_loader; assumption | split; reflexivity].
   - split; [apply step_tick; assumption | split; reflexivity].
+  - cbn [hyp_step] in Hh. discriminate.
   - cbn [hyp_step] in Hh. discriminate.
 Qed.
 
@@ -1097,7 +1098,7 @@ Proof.
     assert (Hcases : (lab = Pop /\ o = OPop None /\ s1 = s) \/
                      (effective (lab :: t) (o :: os) = lab :: effective t os /\
                       effective_outs (lab :: t) (o :: os) = o :: effective_outs t os /\ hyp_step c s lab = true)).
-    { destruct lab as [id p | | id p | id p | | | b | id p]; cbn [q_step] in E1.
+    { destruct lab as [id p | | id p | id p | | | b | id p |]; cbn [q_step] in E1.
       - inversion E1; subst. right. repeat split; reflexivity || exact Hh1.
       - unfold q_pop in E1. destruct (mem s) as [| x m'] eqn:Em.
         + inversion E1; subst. left. repeat split.
@@ -1107,6 +1108,7 @@ Proof.
       - unfold q_purge in E1. inversion E1; subst. right. repeat split; reflexivity || exact Hh1.
       - inversion E1; subst. right. repeat split; reflexivity || exact Hh1.
       - inversion E1; subst. right. repeat split; reflexivity || exact Hh1.
+      - cbn [hyp_step_safety hyp_step] in Hh1. discriminate.
       - cbn [hyp_step_safety hyp_step] in Hh1. discriminate. }
     destruct Hcases as [(El & Eo & Es) | (Ee & Eeo & Hhs)].
     + subst. cbn [effective effective_outs] in *.
